@@ -55,13 +55,14 @@ func init() {
 
 func init() {
 	reg(&Spec{
-		ID: "C18", Pkgs: []string{"transactions"}, TimedNative: true, LoopBound: 400, ValidateN: 8,
+		ID: "C18", Pkgs: []string{"transactions"}, TimedNative: true, LoopBound: 400, ValidateN: 8, EngineOnly: []string{"VH_C18_race", "VH_C18_timed_race"},
 		Quick: func() []Inst {
 			var out []Inst
 			for _, fa := range []int64{0, 1, 2} {
 				out = append(out, inst("transactions", "VH_C18_retry", 3, 1, fa), inst("transactions", "VH_C18_retry", 2, 2, fa))
 			}
 			out = append(out, inst("transactions", "VH_C18_timed", 3))
+			out = append(out, inst("transactions", "VH_C18_race", 2), inst("transactions", "VH_C18_timed_race", 2, 0), inst("transactions", "VH_C18_timed_race", 2, 1))
 			return out
 		},
 		Thor: func() []Inst {
@@ -70,14 +71,17 @@ func init() {
 				out = append(out, inst("transactions", "VH_C18_retry", 4, 1, fa), inst("transactions", "VH_C18_retry", 4, 2, fa), inst("transactions", "VH_C18_retry", 5, 0, fa))
 			}
 			out = append(out, inst("transactions", "VH_C18_timed", 4), inst("transactions", "VH_C18_timed", 5))
+			out = append(out, inst("transactions", "VH_C18_race", 3), inst("transactions", "VH_C18_timed_race", 3, 0), inst("transactions", "VH_C18_timed_race", 3, 1))
 			return out
 		},
-		Asserts: []string{"C18.finally_ran_once_at_done", "C18.done_stays_closed", "C18.err_stable_after_done", "C18.finally_exactly_once", "C18.no_retry_callback_after_done", "C18.no_panic"},
-		Reach:   []string{"C18.finished", "C18.event_after_done", "C18.retry_history_done", "C18.timed_history_done"},
+		Asserts: []string{"C18.finally_ran_once_at_done", "C18.done_stays_closed", "C18.err_stable_after_done", "C18.finally_exactly_once", "C18.no_retry_callback_after_done", "C18.no_panic",
+			"C18.race_finally_exactly_once", "C18.race_no_retry_callback_after_done", "C18.race_err_is_the_first_result", "C18.race_free", "C18.race_finally_ran_when_done_observed", "C18.race_no_panic"},
+		Reach:   []string{"C18.finished", "C18.event_after_done", "C18.retry_history_done", "C18.timed_history_done", "C18.race_done", "C18.timed_race_done"},
 		Bounds: map[string]string{
 			"events":   "every sequence of n events (quick 2..3, thorough 4..5) over {Success, Fail, Proceed, next timer expiry, context cancellation} on a RetryTransaction (retryCount 0..2, symbolic retryDelay, retry callback failing on its k-th call, k = 0..3) / {Success, Fail, timer expiry, cancellation} on a TimedTransaction (symbolic timeout, 0 included), then all remaining timers fire",
-			"schedule": "cooperative tasks: an event runs to completion before the next one; timer callbacks run at their virtual instants",
+			"schedule": "event sequences: cooperative tasks (an event runs to completion before the next one; timer callbacks run at their virtual instants)",
+			"races":    "pre-emptive interleavings (a context switch is offered before every access to shared memory and every lock operation; context bound 2, thorough 3) of Success() with the retry timer's callback on a RetryTransaction while a third goroutine waits on Done; of Success() with the timeout callback on a TimedTransaction; and of NewTimedTransaction with a zero timeout, whose timer goroutine is runnable before the constructor has stored the timer",
 		},
-		Outside: []string{"pre-emption inside Success/Fail/timeout (unsynchronised access to the timer field: data races, the timer firing before the assignment in NewTimedTransaction with a zero timeout): needs instruction-level interleaving, see DESIGN.md", "client/sleep_transaction.go timers (exercised through C28/C33/C26 only)"},
+		Outside: []string{"more than 3 pre-emptions; Proceed / Fail / cancellation racing with the timer (only Success vs. timer is interleaved pre-emptively)", "data races are reported only when both conflicting accesses are lock-free (adjacency criterion); weak-memory effects", "client/sleep_transaction.go timers (exercised through C28/C33/C26 only)", "schedule-dependent counterexamples are confirmed by concrete re-execution of the recorded schedule in the engine, not natively"},
 	})
 }
